@@ -31,6 +31,22 @@ VerifyOK(files, f, repair, reported, removed) ==
   /\ reported = IdsOf(invalid)
   /\ removed = (IF repair THEN invalid ELSE {})
 
+\* ---- C20: two clients configured for different formats share one directory.  State: valid[<<id, fmt>>] for every chunk
+\*      file present.  Every operation of a client configured for f reads, reports, creates and deletes files of format f only.
+FmtOp(present, f, op, id) ==       \* -> [res, present']   (present: set of [id, fmt, valid])
+  LET mine == {x \in present : x.id = id /\ x.fmt = f} IN
+  CASE op = "has"    -> [res |-> IF mine # {} THEN "true" ELSE "false", present |-> present]
+    [] op = "get"    -> [res |-> IF mine = {} THEN "missing" ELSE IF \A x \in mine : x.valid THEN "ok" ELSE "invalid", present |-> present]
+    [] op = "store"  -> [res |-> "ok", present |-> (present \ mine) \cup {[id |-> id, fmt |-> f, valid |-> TRUE]}]
+    [] op = "remove" -> [res |-> IF mine = {} THEN "missing" ELSE "ok", present |-> present \ mine]
+    [] op = "corrupt" -> [res |-> "ok", present |-> (present \ mine) \cup {[id |-> x.id, fmt |-> f, valid |-> FALSE] : x \in mine}]
+FmtPrune(present, f, keep) == {x \in present : x.fmt # f \/ x.id \in keep}
+FmtVerify(present, f, repair) == [reported |-> {x.id : x \in {y \in present : y.fmt = f /\ ~y.valid}},
+                                  present |-> IF repair THEN {x \in present : x.fmt # f \/ x.valid} ELSE present]
+\* the directory layout: <first four hex digits of the ID>/<ID> with suffix .cacnk for compressed chunks, none for raw ones
+\* (names are checked literally by the harness against this rule; the listing it reports is the set of [id, fmt] it could parse,
+\* stray = any other file)
+
 \* ---- the walk as coded, for the exhaustive check: visit files in any order; tmp files are removed; files whose name
 \*      has the own suffix and parses as an ID are removed through RemoveChunk(id) -- the canonical path -- unless kept
 NameMatches(x, f) == x.kind \in {"chunk", "wrongdir"} /\ x.fmt = f
@@ -56,6 +72,13 @@ Consistent(S) == \A a, b \in S : (a.kind = b.kind /\ a.id = b.id /\ a.fmt = b.fm
 SeqOf(S) == LET RECURSIVE F(_) F(T) == IF T = {} THEN <<>> ELSE LET e == CHOOSE e \in T : TRUE IN <<e>> \o F(T \ {e}) IN F(S)
 ASSUME \A S \in {T \in SUBSET Universe : Consistent(T) /\ Cardinality(T) <= 5}, f \in Formats, keep \in SUBSET (IdSet \cup {99}) :
          LET r == Walk(SeqOf(S), S, f, keep, {}) IN PruneOK(S, f, keep, r.removed, r.res)
+\* C20: whatever a client configured for f does, the files of the other format are exactly what they were
+Present2 == SUBSET [id : IdSet, fmt : Formats, valid : BOOLEAN]
+ASSUME \A p \in {q \in Present2 : Cardinality(q) <= 3}, f \in Formats, id \in IdSet :
+         /\ \A op \in {"has", "get", "store", "remove", "corrupt"} :
+               {y \in FmtOp(p, f, op, id).present : y.fmt # f} = {y \in p : y.fmt # f}
+         /\ \A keep \in SUBSET IdSet : {y \in FmtPrune(p, f, keep) : y.fmt # f} = {y \in p : y.fmt # f}
+         /\ \A rp \in BOOLEAN : {y \in FmtVerify(p, f, rp).present : y.fmt # f} = {y \in p : y.fmt # f}
 VARIABLE x
 Spec == x = 0 /\ [][UNCHANGED x]_x
 =============================================================================
